@@ -354,6 +354,11 @@ func mergeMultiParamLambdas(exprs []ast.Expression) []ast.Expression {
 
 // parseImplicitAlias handles implicit column aliases like "SELECT 'a' c0" (meaning 'a' AS c0)
 func (p *Parser) parseImplicitAlias(expr ast.Expression) ast.Expression {
+	// A failed parse (nil expression) has nothing to attach an alias to
+	if expr == nil {
+		return nil
+	}
+
 	// Check if current token can be an implicit alias
 	// Can be IDENT or certain keywords that are used as aliases (KEY, VALUE, TYPE, etc.)
 	canBeAlias := p.currentIs(token.IDENT)
@@ -1612,6 +1617,11 @@ func (p *Parser) parseCast() ast.Expression {
 // wrapWithAlias wraps an expression with an alias, handling different expression types appropriately
 // If the expression already has an alias (e.g., AliasedExpr), the new alias replaces/overrides it
 func (p *Parser) wrapWithAlias(expr ast.Expression, alias string) ast.Expression {
+	// A failed parse (nil expression) has nothing to attach an alias to
+	if expr == nil {
+		return nil
+	}
+
 	switch e := expr.(type) {
 	case *ast.Identifier:
 		e.Alias = alias
